@@ -1,7 +1,7 @@
 (* C06 - matrices: the specification MatrixOf is defined from the semantics; obligations here are the
    semantic facts the checkers rely on. *)
 From Coq Require Import NArith List Bool.
-From OFV Require Import Base.Cplx Base.Lin Sem.PauliSem Model.QubitOp Thm.C01.QubitHom Model.LinearOp Thm.C06.LinearOpSound.
+From OFV Require Import Base.Cplx Base.Lin Sem.PauliSem Model.QubitOp Thm.C01.QubitHom Model.LinearOp Thm.C06.LinearOpSound Thm.C06.LinearOpFull.
 Import ListNotations.
 (* products of operators denote composition (hence MatrixOf (a b) = MatrixOf a . MatrixOf b) *)
 Theorem C06_denotation_multiplicative : forall a b s, leq N.eqb (qden (qmul a b) s) (lbind (qden b s) (qden a)).
@@ -27,3 +27,14 @@ Theorem C06_linear_operator_is_sum_of_terms : forall n op x i, canonical_op n op
   nth i (lqo n op x) C0 = fold_left (fun acc tc => Cadd acc (nth i (lqo_term (fst tc) (snd tc) (tree_of n x)) C0)) op C0.
 Proof. exact lqo_is_sum_of_terms. Qed.
 Print Assumptions C06_linear_operator_is_sum_of_terms.
+
+(* ... and for whole operators: amplitude number idx r (big-endian) of the returned vector is the coefficient of the basis state r in
+   op (vector), the vector read as the formal sum vlin of its amplitudes - every n, every canonical operator, every vector *)
+Theorem C06_linear_operator_semantics : forall n op x r, canonical_op n op -> length r = n ->
+  nth (idx r) (lqo n op x) C0 = coeff N.eqb (mask_of_path r) (lbind (vlin (tree_of n x)) (qden op)).
+Proof. exact lqo_semantics. Qed.
+Print Assumptions C06_linear_operator_semantics.
+Theorem C06_vector_amplitudes : forall n x k, length x = Nat.pow 2 n -> length k = n ->
+  coeff N.eqb (mask_of_path k) (vlin (tree_of n x)) = nth (idx k) x C0.
+Proof. intros n x k Hx Hk. rewrite (coeff_vlin n _ k (tree_of_perfect n x) Hk). apply tree_of_amplitudes; assumption. Qed.
+Print Assumptions C06_vector_amplitudes.
